@@ -21,6 +21,8 @@ import (
 	"fmt"
 	"io"
 	"math/big"
+	"net"
+	"sort"
 	"strings"
 	"sync"
 	"time"
@@ -1166,9 +1168,161 @@ func execChoose(o hx.Op) string {
 	return fmt.Sprintf("r ok bits=%d p=%s g=%s", p.BitLen(), hx.Hex(p.Bytes()), which)
 }
 
+// ---------------------------------------------------------------- public API: NewClientConn / NewServerConn
+
+type bufHalf struct {
+	mu     sync.Mutex
+	cond   *sync.Cond
+	buf    []byte
+	closed bool
+}
+
+func newBufHalf() *bufHalf { h := &bufHalf{}; h.cond = sync.NewCond(&h.mu); return h }
+func (h *bufHalf) write(p []byte) (int, error) {
+	h.mu.Lock()
+	defer h.mu.Unlock()
+	if h.closed {
+		return 0, io.ErrClosedPipe
+	}
+	h.buf = append(h.buf, p...)
+	h.cond.Broadcast()
+	return len(p), nil
+}
+func (h *bufHalf) read(p []byte) (int, error) {
+	h.mu.Lock()
+	defer h.mu.Unlock()
+	for len(h.buf) == 0 && !h.closed {
+		h.cond.Wait()
+	}
+	if len(h.buf) == 0 {
+		return 0, io.EOF
+	}
+	n := copy(p, h.buf)
+	h.buf = h.buf[n:]
+	return n, nil
+}
+func (h *bufHalf) close() { h.mu.Lock(); h.closed = true; h.cond.Broadcast(); h.mu.Unlock() }
+
+// pipeConn: a buffered in-memory net.Conn (net.Pipe is unbuffered: both sides write their version line first)
+type pipeConn struct{ r, w *bufHalf }
+
+func (c *pipeConn) Read(p []byte) (int, error)         { return c.r.read(p) }
+func (c *pipeConn) Write(p []byte) (int, error)        { return c.w.write(p) }
+func (c *pipeConn) Close() error                       { c.r.close(); c.w.close(); return nil }
+func (c *pipeConn) LocalAddr() net.Addr                { return &net.TCPAddr{IP: net.IPv4(127, 0, 0, 1), Port: 1} }
+func (c *pipeConn) RemoteAddr() net.Addr               { return &net.TCPAddr{IP: net.IPv4(127, 0, 0, 1), Port: 22} }
+func (c *pipeConn) SetDeadline(time.Time) error        { return nil }
+func (c *pipeConn) SetReadDeadline(time.Time) error    { return nil }
+func (c *pipeConn) SetWriteDeadline(time.Time) error   { return nil }
+
+// execConn: a complete connection set-up through the exported API for one kex method and one host key algorithm:
+// version exchange, negotiation, key exchange, host key check (FixedHostKey / InsecureIgnoreHostKey), none auth.
+func execConn(o hx.Op) string {
+	kex, algo := o.Str("m"), o.Str("hk")
+	hk := hostKeys()[0][keyFormat(algo)]
+	a, b := newBufHalf(), newBufHalf()
+	cconn, sconn := &pipeConn{r: b, w: a}, &pipeConn{r: a, w: b}
+	defer cconn.Close()
+	defer sconn.Close()
+	ccfg := &ssh.ClientConfig{User: "u", ClientVersion: "SSH-2.0-" + o.Str("cv")}
+	ccfg.KeyExchanges = []string{kex}
+	ccfg.HostKeyAlgorithms = []string{algo}
+	if o.Str("cb") == "fixed" {
+		ccfg.HostKeyCallback = ssh.FixedHostKey(hk.signer.PublicKey())
+	} else if o.Str("cb") == "wrong" {
+		ccfg.HostKeyCallback = ssh.FixedHostKey(hostKeys()[1][keyFormat(algo)].signer.PublicKey())
+	} else {
+		ccfg.HostKeyCallback = ssh.InsecureIgnoreHostKey()
+	}
+	scfg := &ssh.ServerConfig{NoClientAuth: true, ServerVersion: "SSH-2.0-" + o.Str("sv")}
+	scfg.KeyExchanges = []string{kex}
+	scfg.AddHostKey(hk.signer)
+	type res struct {
+		conn ssh.Conn
+		err  error
+	}
+	cch, sch := make(chan res, 1), make(chan res, 1)
+	go func() {
+		c, chans, reqs, err := ssh.NewClientConn(cconn, "verif:22", ccfg)
+		if err == nil {
+			go ssh.DiscardRequests(reqs)
+			go func() {
+				for range chans {
+				}
+			}()
+		}
+		cch <- res{c, err}
+	}()
+	go func() {
+		c, chans, reqs, err := ssh.NewServerConn(sconn, scfg)
+		if err == nil {
+			go ssh.DiscardRequests(reqs)
+			go func() {
+				for range chans {
+				}
+			}()
+			sch <- res{c.Conn, err}
+			return
+		}
+		sch <- res{nil, err}
+	}()
+	var cr, sr res
+	for i := 0; i < 2; i++ {
+		select {
+		case cr = <-cch:
+			if cr.err != nil {
+				cconn.Close()
+			}
+		case sr = <-sch:
+			if sr.err != nil {
+				sconn.Close()
+			}
+		case <-time.After(30 * time.Second):
+			return "r st=hang"
+		}
+	}
+	st := func(e error) string {
+		if e != nil {
+			return "err"
+		}
+		return "ok"
+	}
+	out := fmt.Sprintf("r c=%s s=%s", st(cr.err), st(sr.err))
+	if cr.err == nil && sr.err == nil {
+		eq := 0
+		if string(cr.conn.SessionID()) == string(sr.conn.SessionID()) {
+			eq = 1
+		}
+		ver := 0
+		if string(cr.conn.ClientVersion()) == string(sr.conn.ClientVersion()) && string(cr.conn.ServerVersion()) == string(sr.conn.ServerVersion()) &&
+			string(cr.conn.ClientVersion()) == "SSH-2.0-"+o.Str("cv") && string(sr.conn.ServerVersion()) == "SSH-2.0-"+o.Str("sv") {
+			ver = 1
+		}
+		ca := cr.conn.(ssh.AlgorithmsConnMetadata).Algorithms()
+		sa := sr.conn.(ssh.AlgorithmsConnMetadata).Algorithms()
+		out += fmt.Sprintf(" sideq=%d sidlen=%d ver=%d ckex=%s chk=%s skex=%s shk=%s", eq, len(cr.conn.SessionID()), ver, ca.KeyExchange, ca.HostKey, sa.KeyExchange, sa.HostKey)
+		cr.conn.Close()
+		sr.conn.Close()
+	}
+	return out
+}
+
+func execNames() string {
+	sup, ins := ssh.SupportedAlgorithms().KeyExchanges, ssh.InsecureAlgorithms().KeyExchanges
+	sort.Strings(sup)
+	sort.Strings(ins)
+	cfg := ssh.Config{}
+	cfg.SetDefaults()
+	return "r names=" + hx.JoinStrs(ssh.VerifKexNames()) + " supported=" + hx.JoinStrs(sup) + " insecure=" + hx.JoinStrs(ins) + " default=" + hx.JoinStrs(cfg.KeyExchanges)
+}
+
 func exec(line string) string {
 	o := hx.Parse(line)
 	switch o.Cmd {
+	case "conn":
+		return execConn(o)
+	case "names":
+		return execNames()
 	case "choose":
 		return execChoose(o)
 	case "kex":
@@ -1273,6 +1427,23 @@ func gen(g *hx.Gen) {
 	}
 	g.StatN("choose.random", nr)
 
+	// the table of key exchange methods itself (kexAlgoMap, SupportedAlgorithms, InsecureAlgorithms, SetDefaults)
+	g.Emit("names")
+	g.Stat(fmt.Sprintf("table.kexAlgoMap=%d/%d", len(methods), 12))
+	g.Stat(fmt.Sprintf("table.hostkey-algorithms=%d/%d", len(hkAlgos), 12))
+	g.Stat(fmt.Sprintf("table.x25519-low-order=%d/%d", len(lowOrder), 7))
+	// the exported entry points NewClientConn / NewServerConn: every kex method × every host key algorithm
+	for i, m := range methods {
+		for j, hk := range hkAlgos {
+			cb := []string{"fixed", "ignore", "fixed", "wrong"}[(i+j)%4]
+			if cb == "wrong" && (i*7+j)%5 != 0 {
+				cb = "fixed"
+			}
+			g.Emit("conn m=%s hk=%s cb=%s cv=%s sv=%s", m.name, hk, cb, hx.Hex(r.Bytes(r.Range(1, 6))), hx.Hex(r.Bytes(r.Range(1, 6))))
+			g.Stat("conn." + cb)
+			g.Stat("pair.conn:" + m.kind + "+" + hk)
+		}
+	}
 	rounds := 1
 	if g.Thorough() {
 		rounds = 20
@@ -1289,8 +1460,9 @@ func gen(g *hx.Gen) {
 			for i, hk := range hkAlgos {
 				st := sigTampers[(i+round)%len(sigTampers)]
 				emitKex(g, m.name, hk, "rr", "-", " st="+st+" mm=-")
+				g.Stat("pair.kex:" + m.name + "+" + hk)
 				if slow {
-					break
+					continue
 				}
 				st2 := sigTampers[(i+round+3)%len(sigTampers)]
 				if st2 != "-" {
